@@ -83,8 +83,12 @@ def gen(rng, tier):
                     id = rng.choice([0, 1, 3, 99, 2**31, 10**20,
                                      rng.randrange(1000)])
                 ops.append(['ev', p, ns, ev, extra, id, 'T%d' % tok])
-            elif k < 0.93:
+            elif k < 0.90:
                 ops.append(['disc', p, ns])
+            elif k < 0.94:
+                # the server ends the namespace; its (slow) disconnect
+                # handler is still running when further events arrive
+                ops.append(['sdisc', p, ns])
             else:
                 if rng.random() < 0.5:
                     ops.append(['sever_now', p])
@@ -132,6 +136,9 @@ def _run(case, cfg, v, reg, shapes, msgpack, w):
                 tok = a
                 break
         if tok is None:
+            if event == 'disconnect':
+                return [('pause', w.choices.pick(
+                    'app', (0.0, 0.03, 0.08, 0.2), 'dpause')), ('ret', None)]
             return [('ret', None)]
         # the concrete event name: for catch-alls it is in the arguments
         name = event
@@ -152,7 +159,10 @@ def _run(case, cfg, v, reg, shapes, msgpack, w):
 
     coroutine = cfg['coroutine'] and cfg['mode'] == 'async'
     install_registry(w, srv, case['registry'], plan, who='s',
-                     coroutine=coroutine)
+                     coroutine=coroutine, extra_class_events=('disconnect',))
+    for ns_ in sorted(reg.func_namespaces() - {'*'}):
+        srv.on('disconnect', w.make_handler(('s', 'func', ns_, 'disconnect'),
+                                            plan, coroutine), namespace=ns_)
     peers = {}
     # model state per peer
     conn = {}          # p -> {ns: sid}
@@ -160,6 +170,8 @@ def _run(case, cfg, v, reg, shapes, msgpack, w):
     expected_rx = {}   # p -> list of keys
     optional_rx = {}   # p -> list of keys that may or may not arrive (racy)
     expect_inv = []    # (tok, label, args) must be invoked exactly once
+    racing_ns = set()  # (p, ns, sid) ended by the server under a free schedule
+    racing_done = set()
     no_inv = []        # tokens that must never be invoked
     all_recs = []
     order = {}         # p -> list of toks in arrival order (handled ones)
@@ -208,6 +220,8 @@ def _run(case, cfg, v, reg, shapes, msgpack, w):
             order[p] = []
         elif k == 'settle':
             w.settle()
+            racing_done |= racing_ns
+            racing_ns.clear()
             for p in peers:
                 absorb_connect_answers(p)
             if len(burst_peers) >= 2:
@@ -238,6 +252,10 @@ def _run(case, cfg, v, reg, shapes, msgpack, w):
             burst_peers.add(p)
             inflight_burst.setdefault(p, []).append(tok)
             sid = cur_sid(p, ns)
+            racing = [x for x in racing_ns if x[0] == p and x[1] == ns]
+            if sid is None and racing:
+                # may still be handled for the old sid, or not at all
+                continue
             if sid is None:
                 no_inv.append(tok)
                 continue
@@ -249,7 +267,7 @@ def _run(case, cfg, v, reg, shapes, msgpack, w):
             label = ('s', kind, lns, lev)
             want_args = tuple(prefix + [sid] + wire_norm(args))
             rec = {'tok': tok, 'label': label, 'args': want_args, 'peer': p,
-                   'racy': False}
+                   'racy': False, 'ns': ns}
             if has_method:
                 expect_inv.append(rec)
                 order[p].append(tok)
@@ -269,6 +287,40 @@ def _run(case, cfg, v, reg, shapes, msgpack, w):
                 continue
             peers[p].send_pkt(sio.DISCONNECT, ns, None, None)
             conn[p].pop(ns, None)
+            if any(x[0] == p and x[1] == ns for x in racing_ns):
+                # free thread schedule: the client's own DISCONNECT may be
+                # handled before the server's disconnect() call gets to run
+                key = ('DISCONNECT', ns, None, 'None')
+                if key in expected_rx[p]:
+                    expected_rx[p].remove(key)
+                    optional_rx[p].append(key)
+        elif k == 'sdisc':
+            p, ns = op[1], op[2]
+            if p not in peers or peers[p].conn.severed:
+                continue
+            sid = cur_sid(p, ns)
+            if sid is None:
+                continue
+            # events this peer posted earlier in the burst are still on
+            # the wire (latency) while the API call starts at once: they may
+            # arrive before or after the mark
+            for rec in inflight_burst.get((p, 'recs'), []):
+                if rec['ns'] == ns:
+                    rec['racy'] = True
+            w.api('s', 'disconnect', sid, namespace=ns)
+            w.rec.count('fault.server_disconnect_in_burst')
+            expected_rx[p].append(('DISCONNECT', ns, None, 'None'))
+            inflight_burst.setdefault((p, 'sdisc'), []).append(
+                ('DISCONNECT', ns, None, 'None'))
+            # from the moment disconnect() has marked the client, its events
+            # on that namespace are events of a client that is not connected.
+            # The call starts before any frame posted after it is delivered
+            # (asyncio: FIFO ready queue; threads: fifo policy); under the
+            # random / PCT thread policies either order is possible.
+            conn[p].pop(ns, None)
+            if cfg['mode'] == 'thread' and cfg.get('policy') != 'fifo':
+                racing_ns.add((p, ns, sid))
+            nontrivial = True
         elif k in ('sever', 'sever_now'):
             p = op[1]
             if p not in peers or peers[p].conn.severed:
@@ -278,6 +330,9 @@ def _run(case, cfg, v, reg, shapes, msgpack, w):
                 # without the ACK getting through: relax narrowly
                 for rec in inflight_burst.get((p, 'recs'), []):
                     rec['racy'] = True
+                for key in inflight_burst.get((p, 'sdisc'), []):
+                    expected_rx[p].remove(key)
+                    optional_rx[p].append(key)
                 w.rec.count('fault.sever_in_burst')
             peers[p].sever()
             conn[p] = {}
@@ -334,6 +389,7 @@ def _run(case, cfg, v, reg, shapes, msgpack, w):
             elif r['peer'] == p and r['racy'] and 'ack' in r:
                 exp_strict.remove(r['ack'])
                 exp_opt.append(r['ack'])
+        exp_opt += optional_rx[p]
         missing, surplus = multiset_diff(exp_strict, got)
         for kx in list(surplus):
             if kx in exp_opt:
@@ -342,6 +398,11 @@ def _run(case, cfg, v, reg, shapes, msgpack, w):
         if missing:
             v.add('ack_missing', 'peer %d: expected ACK(s) %s not received; '
                   'received %s' % (p, missing[:3], got[:6]))
+        # ACKs of events that raced a server-side disconnect under a free
+        # thread schedule may or may not have been produced
+        surplus = [x for x in surplus
+                   if not (x[0] in ('ACK', 'BINARY_ACK') and any(
+                       r[0] == p and r[1] == x[1] for r in racing_done))]
         if surplus:
             kinds = sorted({s[0] for s in surplus})
             v.add('unexpected_packet', 'peer %d received %s it should not '
